@@ -756,7 +756,9 @@ J gen_f() {
   using namespace vf::g;
   J r = J::obj();
   double lat, lon;
-  switch (wpick({45, 15, 15, 15, 10})) {
+  switch (wpick({40, 15, 15, 15, 10, 12})) {
+    case 5: lat = sgn() * ((double)(8 * irange(0, 10)) + (coin() ? -1 : 1) * loguni(1e-9, 0.02));                 // a band edge AND a zone edge:
+            lon = 6.0 * (double)irange(-30, 30) + sgn() * loguni(1e-9, 0.4); break;                                // 100 km blocks cut by a band boundary
     case 0: lat = uni(-90, 90); lon = uni(-180, 180); break;
     case 1: lat = gg::latitude(); lon = gg::angle(); break;
     case 2: lat = uni(-80, 84); lon = 6.0 * (double)irange(-30, 30) + sgn() * loguni(1e-12, 1.0); break;       // near zone edges
@@ -877,7 +879,12 @@ Verdict check_f(const J& r) {
   long long pc = std::max(-6LL, std::min(6LL, prec));
   std::string s;
   try { s = alt ? p.AltMGRSRepresentation((int)prec) : p.MGRSRepresentation((int)prec); }
-  catch (const GeographicErr&) { v.skip("position outside the documented MGRS range in this zone"); return v; }
+  catch (const GeographicErr& e) {
+    // a neighbouring (alternate) zone may put the point outside the MGRS easting range; in its own standard zone every
+    // latitude/longitude has an MGRS string (UTM -80 <= lat < 84 in a zone at most 12 deg wide, UPS elsewhere)
+    if (alt && p.AltZone() != p.Zone()) { v.skip("position outside the documented MGRS range in this alternate zone"); return v; }
+    v.that(false, std::string("MGRSRepresentation threw for a position in its standard zone: ") + e.what()); return v;
+  }
   v.tag("mgrs-prec" + std::to_string(pc));
   if (!reread(s, centerp, false)) return v;
   v.that(q.Zone() == zone, "zone re-read from '" + s + "'");
